@@ -218,7 +218,7 @@ def TopicRow.createSub (r : TopicRow) (s : SubRow) : TopicRow :=
 
 /-- store.Subs.Create → adp.TopicShare -/
 def Ctx.subsCreate (c : Ctx) (tn : TName) (s : SubRow) : Ctx × Bool :=
-  c.call "TopicShare" (fun w => match w.row? tn with
+  c.callFK "TopicShare" s.user (fun w => match w.row? tn with
     | some r => w.setRow (r.createSub s)
     | none => w)
 
